@@ -69,6 +69,9 @@ func (P *Prog) verifyFunc(fn *ssa.Function, c *Contract, cfgVal int, hasCfg bool
 			}
 		}
 		res.Obls = x.obls
+		for _, o := range res.Obls {
+			o.funs = TS.funs
+		}
 		for t := range x.trusted {
 			res.Trusted = append(res.Trusted, t)
 		}
@@ -204,8 +207,18 @@ func (P *Prog) verifyFunc(fn *ssa.Function, c *Contract, cfgVal int, hasCfg bool
 			}
 		}()
 	}
-	preWatch := len(x.watch)
-	_ = preWatch
+	if isSeatManagerMethod(fn) && hasCfg && len(fn.Params) > 0 {
+		x.watch = append(x.watch, smWatch(x, x.oldHeap, x.params[fn.Params[0].Name()], cfgVal, "pre.")...)
+		for _, p := range fn.Params[1:] {
+			if sl, ok := p.Type().Underlying().(*types.Slice); ok && isStringT(sl.Elem()) {
+				sv := x.params[p.Name()]
+				for i := 0; i < 10; i++ {
+					ev := loadPlace(x.oldHeap, elemPlace(sv, IntLit(int64(i))), sl.Elem())
+					x.watch = append(x.watch, WatchTerm{fmt.Sprintf("pre:%s[%d]#0", p.Name(), i), ev.T})
+				}
+			}
+		}
+	}
 	// run
 	final, results := x.runBody(fn, st)
 	// postconditions
@@ -222,6 +235,9 @@ func (P *Prog) verifyFunc(fn *ssa.Function, c *Contract, cfgVal int, hasCfg bool
 	}
 	x.cover(final, "return")
 	// watch list: results and any debugging expressions (post-state)
+	if isSeatManagerMethod(fn) && hasCfg && len(fn.Params) > 0 {
+		x.watch = append(x.watch, smWatch(x, final.heap, x.params[fn.Params[0].Name()], cfgVal, "post.")...)
+	}
 	for i, r := range results {
 		var fl []*Term
 		flatten(r, &fl)
@@ -284,6 +300,39 @@ func (P *Prog) verifyFunc(fn *ssa.Function, c *Contract, cfgVal int, hasCfg bool
 				Note: fmt.Sprintf("%s/%s: %s", res.Name, lbl, f.What), Watch: x.watch})
 			goal = Implies(Not(exc), goal)
 			note += "   [claimed outside the recorded finding: " + f.Except + "]"
+		}
+		clauseHasFinding := false
+		for _, f := range P.findingsFor(res.Name) {
+			if f.Label == lbl && (f.Kind == "" || f.Kind == "ensures") {
+				clauseHasFinding = true
+			}
+		}
+		if c.RetSplit && len(x.topRets) > 1 && !clauseHasFinding {
+			// one set of obligations per return statement: the clause is evaluated in that return's own
+			// state, so no goal has to reason about the merged exit state
+			for ri, r := range x.topRets {
+				if r.st.pc.IsFalse() {
+					continue
+				}
+				pr := x.newCEnv(r.st)
+				pr.old = x.oldHeap
+				for i, rv := range r.results {
+					if i < len(c.Returns) {
+						pr.vars[c.Returns[i]] = rv
+					}
+					pr.vars[fmt.Sprintf("result%d", i)] = rv
+					if i == 0 {
+						pr.vars["result"] = rv
+					}
+				}
+				g := x.evalClause(pr, e, res.Name)
+				n0 := len(x.obls)
+				x.oblige(r.st, "ensures", lbl, g, note)
+				for _, o := range x.obls[n0:] {
+					o.Name += fmt.Sprintf("#ret%d", ri)
+				}
+			}
+			continue
 		}
 		x.oblige(final, "ensures", lbl, goal, note)
 	}
